@@ -1108,7 +1108,7 @@ func workerMain(hs []History, shard, n int) {
 		if only >= 0 {
 			// Attribution run: if a proxy goroutine is panicking, let it take the process down before the
 			// outcome is reported as a clean completion.
-			time.Sleep(500 * time.Millisecond)
+			time.Sleep(250 * time.Millisecond)
 		}
 		put(line{Outcome: o})
 	}
@@ -1224,7 +1224,7 @@ func main() {
 	// before may be the real culprit: both are re-run alone in a fresh process, and that run is authoritative.
 	results := map[int]*Outcome{}
 	var rmu sync.Mutex
-	var incomplete, engineErr string
+	var engineErr string
 	var wg sync.WaitGroup
 	for s := 0; s < nshards; s++ {
 		wg.Add(1)
@@ -1266,12 +1266,6 @@ func main() {
 					rmu.Unlock()
 					return
 				}
-				if resumes >= 150 {
-					rmu.Lock()
-					incomplete = "a worker shard died more than 150 times; its remaining histories were not run"
-					rmu.Unlock()
-					return
-				}
 				reproduced := false
 				for _, id := range []int{prev, missing} {
 					if id < 0 || isolated[id] {
@@ -1291,6 +1285,18 @@ func main() {
 					results[missing] = &Outcome{H: hs[missing], Crash: "worker died while running this history (not reproduced when re-run alone): " + crashText(werr, wout)}
 					rmu.Unlock()
 				}
+				if resumes >= 2 {
+					// Third death in this shard: stop bulk runs, every remaining history gets its own process.
+					for k := missing + 1; k < len(hs); k++ {
+						if mine(k, s, nshards, lib.Seed()) {
+							o := runIsolated(hs[k], filepath.Join(dir, fmt.Sprintf("only-%d.json", k)))
+							rmu.Lock()
+							results[k] = o
+							rmu.Unlock()
+						}
+					}
+					return
+				}
 				wout, werr = rerunShard(s, nshards, missing+1, files[s])
 			}
 		}(s)
@@ -1300,7 +1306,6 @@ func main() {
 		fmt.Fprintln(os.Stderr, "C05:", engineErr)
 		os.Exit(2)
 	}
-	rep.Incomplete = incomplete
 
 	// Judge.
 	st := &judgeStats{obsKeys: map[string]bool{}}
